@@ -171,6 +171,13 @@ func report(p *Program, results []*Result, prop, tier, verif string, loadMs int6
 		return nil
 	}
 	discharged := 0
+	replayed := 0
+	replayTried := 0
+	const maxReplays = 4 // each replay compiles and runs a test of the package (about 10 s)
+	harnessOf := map[string]*Harness{}
+	for _, hh := range p.Harnesses {
+		harnessOf[hh.Oblig] = hh
+	}
 	deferred := 0
 	violations := 0
 	var undecided, knownHit, notClaimed, samples []any
@@ -241,6 +248,16 @@ func report(p *Program, results []*Result, prop, tier, verif string, loadMs int6
 			}
 		}
 	}
+	if os.Getenv("GOVC_REPLAY_ALL") != "" {
+		for _, r := range results {
+			if r.Status == "refuted" && !r.Vacuity && r.Query != "" {
+				if hh := harnessOf[r.Oblig]; hh != nil {
+					rst, rtext := Replay(p, hh, r.Witness, r.Query, p.Repo, verif, replayDir)
+					fmt.Printf("REPLAY %s: %s\n%s\n", r.Oblig, rst, truncate(rtext, 1500))
+				}
+			}
+		}
+	}
 	for _, name := range claimed {
 		r := byName[name]
 		if r == nil {
@@ -263,7 +280,34 @@ func report(p *Program, results []*Result, prop, tier, verif string, loadMs int6
 				continue
 			}
 			path := writeReplay(r, "the solver found a model of the negated obligation (model below)")
-			fmt.Printf("VIOLATION property=%s replay=%s obligation=%s no-failing-input-found\n", prop, path, name)
+			// replay of the model against the real code (DESIGN §3.3)
+			rst, rtext := "not-replayable", ""
+			concurrent := false
+			for _, tnote := range r.Trusted {
+				if strings.Contains(tnote, "sync") || strings.Contains(tnote, "atomic") || strings.Contains(tnote, "goroutine") || strings.Contains(tnote, "go statement") {
+					concurrent = true
+				}
+			}
+			if concurrent {
+				rtext = "replay not attempted: the obligation is about concurrent code (its result on one real schedule would prove nothing)"
+			} else if hh := harnessOf[name]; hh != nil && r.Query != "" {
+				if replayTried < maxReplays {
+					replayTried++
+					rst, rtext = Replay(p, hh, r.Witness, r.Query, p.Repo, verif, replayDir)
+				} else {
+					rtext = fmt.Sprintf("replay not attempted: %d violations of this run were already replayed (cap)", maxReplays)
+				}
+			}
+			if f, err := os.OpenFile(path, os.O_APPEND|os.O_WRONLY, 0o644); err == nil {
+				fmt.Fprintf(f, "\n---- replay against the real code: %s ----\n%s\n", rst, rtext)
+				f.Close()
+			}
+			if rst == "reproduced" {
+				fmt.Printf("VIOLATION property=%s replay=%s obligation=%s failing-input-replayed-on-real-code\n", prop, path, name)
+				replayed++
+			} else {
+				fmt.Printf("VIOLATION property=%s replay=%s obligation=%s no-failing-input-found\n", prop, path, name)
+			}
 			violations++
 		case "unknown":
 			path := writeReplay(r, "obligation was discharged on the unchanged tree and no solver decides it now")
@@ -340,6 +384,7 @@ func report(p *Program, results []*Result, prop, tier, verif string, loadMs int6
 			"obligations":              len(claimed),
 			"discharged":               discharged,
 			"deferred_to_thorough_tier": deferred,
+			"violations_replayed_on_real_code": replayed,
 			"checker_cmd":              fmt.Sprintf("./check %s %s", prop, tier),
 			"trusted_base":             append([]string{"govc VC generator (/verif/govc)", "golang.org/x/tools/go/ssa v0.29.0", "z3 5.1.0 (z3-new), z3 4.8.12, cvc5 1.0 (portfolio, first definite answer)"}, tl...),
 			"samples":                  samples,
